@@ -267,6 +267,11 @@ def generators(thorough):
         for W in (A4, A8):
             for x in W.astype("int16"):
                 C.run(lambda: obj(x, -1), lambda: fi(x, -1), f"x={x.tolist()} nodata=-1")
+        # markers that the data dtype cannot represent: the source compares every sample with the marker as given
+        for dt, nd_, fill in (("int16", 65535, -1), ("int16", 65539, 3), ("uint8", 256, 0), ("int32", 2 ** 32 + 5, 5)):
+            for x in A4:
+                xx = np.where(x == -1, fill, x).astype(dt)
+                C.run(lambda: obj(xx, nd_), lambda: fi(xx, nd_), f"x={xx.tolist()} {dt} nodata={nd_} (not representable in {dt})")
         big = np.array([3000, 4000, -3000, 5000, 7000, 6500, 200], dtype="int16")   # int16 products overflow in CPython
         C.run(lambda: obj(big, -3000), lambda: fi(big, -3000), f"x={big.tolist()}")
     G["autocorr.autocorr_1d_int"] = ac_int
